@@ -16,7 +16,9 @@ VERIF = os.path.dirname(os.path.dirname(os.path.abspath(__file__)))
 SPEC = os.path.join(VERIF, "spec")
 HARNESS = os.path.join(VERIF, "harness")
 EVID = os.path.join(VERIF, "evidence")
-WORK = os.path.join(EVID, "work")
+WORK_ROOT = os.path.join(EVID, "work")
+# every process works in its own scratch area (several checks may run at the same time; one must not clean up under another)
+WORK = os.path.join(WORK_ROOT, "p%d" % os.getpid())
 REPLAYS = os.path.join(EVID, "replays")
 FINDINGS = os.path.join(VERIF, "findings", "known-findings.jsonl")
 TLA_CP = "/opt/veriftools/tla/tla2tools.jar:/opt/veriftools/tla/CommunityModules-deps.jar"
@@ -39,7 +41,13 @@ def workdir(name):
 
 
 def cleanup_work(name):
-    shutil.rmtree(os.path.join(WORK, name), ignore_errors=True)
+    shutil.rmtree(os.path.join(WORK, name) if name else WORK, ignore_errors=True)
+    # scratch areas of processes that no longer exist
+    if not name and os.path.isdir(WORK_ROOT):
+        for d in os.listdir(WORK_ROOT):
+            pid = d[1:] if d.startswith("p") and d[1:].isdigit() else None
+            if pid is None or not os.path.exists("/proc/%s" % pid):
+                shutil.rmtree(os.path.join(WORK_ROOT, d), ignore_errors=True)
 
 
 # --------------------------------------------------------------------------------------------
@@ -395,6 +403,26 @@ def apalache_check(module_path, name, init=None, inv=None, length=1, timeout=300
     if "EXITCODE: ERROR (12)" in r.stdout or "violated" in r.stdout.lower():
         return "error", dt, tail
     return "tool", dt, tail
+
+
+def tlapm_check(module_path, name, timeout=1200):
+    """tlapm on a proof module under spec/proofs (fingerprints ignored: every obligation is re-proved).
+    Returns ("ok" | "failed" | "timeout" | "tool", obligations, seconds, tail)."""
+    wd = workdir("tlapm-" + name)
+    mod = os.path.join(VERIF, module_path)
+    cmd = ["timeout", str(timeout), "tlapm", "--cleanfp", "--threads", "6", "-I", SPEC, "--cache-dir", wd, mod]
+    t0 = time.time()
+    r = subprocess.run(cmd, cwd=os.path.dirname(mod), stdout=subprocess.PIPE, stderr=subprocess.STDOUT, text=True)
+    dt = time.time() - t0
+    m = re.search(r"All (\d+) obligations? proved", r.stdout)
+    if r.returncode == 124:
+        return "timeout", 0, dt, r.stdout[-1500:]
+    if m and r.returncode == 0:
+        return "ok", int(m.group(1)), dt, r.stdout[-500:]
+    m = re.search(r"(\d+)/(\d+) obligations failed", r.stdout)
+    if m:
+        return "failed", int(m.group(2)), dt, r.stdout[-3000:]
+    return "tool", 0, dt, r.stdout[-3000:]
 
 
 def ddmin(seq, failing_batch, max_rounds=40):
